@@ -128,6 +128,8 @@ Definition ops : list (string * (tree -> tree)) := [
   ("spec.columns_once", fun t =>
       ofB (columns_once_b (tB (tNth t 0)) (tB (tNth t 1)) (Z.to_nat (tZ (tNth t 2))) (tZ (tNth t 3))
                           (tList (tList tZ) (tNth t 4))));
+  ("spec.same_render", fun t => ofB (same_render_b (tStrs (tNth t 0)) (tStrs (tNth t 1))));
+  ("spec.same_grid", fun t => ofB (same_grid_b (tList (tList tZ) (tNth t 0)) (tList (tList tZ) (tNth t 1))));
   (* [[ [depth, label lines], ... ], lines] *)
   ("spec.tree_dfs", fun t =>
       ofB (tree_dfs_b (tList (fun e => (tZ (tNth e 0), tStrs (tNth e 1))) (tNth t 0)) (tStrs (tNth t 1))))
